@@ -32,14 +32,14 @@ type Violation struct {
 
 // Run is the state of one check run (parent or worker).
 type Run struct {
-	knownCache map[string]finding
+	knownCache            map[string]finding
 	replaySig, replayFile string
-	ID     string
-	Tier   string
-	Seed   int64
-	Root   string // /verif
-	Out    string // where evidence/ and replays/ are written (Root unless VERIF_OUTDIR is set)
-	Replay string // path of a replay file, if replaying
+	ID                    string
+	Tier                  string
+	Seed                  int64
+	Root                  string // /verif
+	Out                   string // where evidence/ and replays/ are written (Root unless VERIF_OUTDIR is set)
+	Replay                string // path of a replay file, if replaying
 
 	start time.Time
 
